@@ -115,7 +115,13 @@ class LenInterp:
     # ------------------------------------------------------------------ kernel entry
     def run_kernel(self, fn: ast.FunctionDef) -> Any:
         params = [a.arg for a in fn.args.args]
-        env: dict[str, Any] = {params[0]: 'self', params[1]: Arr(L), params[2]: Arr(H + Poly.const(1))}
+        static = any((isinstance(d, ast.Name) and d.id == 'staticmethod') for d in fn.decorator_list)
+        if static and len(params) >= 2:
+            env: dict[str, Any] = {params[0]: Arr(L), params[1]: Arr(H + Poly.const(1))}
+        elif len(params) >= 3:
+            env = {params[0]: 'self', params[1]: Arr(L), params[2]: Arr(H + Poly.const(1))}
+        else:
+            raise Incomplete(site(fn), 'kernel without (x, band_values) parameters')
         return self.call(fn, env)
 
     def call(self, fn: ast.AST, env: dict[str, Any]) -> Any:
@@ -320,6 +326,11 @@ class LenInterp:
             if fn is None:
                 raise Incomplete(site(e), f'unknown helper {f.attr}')
             params = [a.arg for a in fn.args.args]
+            if any((isinstance(d, ast.Name) and d.id == 'staticmethod') for d in fn.decorator_list):
+                sub = {}
+                for p, a in zip(params, e.args):
+                    sub[p] = self.ev(a, env)
+                return self.call(fn, sub)
             sub = {params[0]: 'self'}
             for p, a in zip(params[1:], e.args):
                 sub[p] = self.ev(a, env)
